@@ -28,11 +28,11 @@ claimed = {
    "Partially decided (level 'other'): deductive proof of the socket / deadline / lock typestate of the three sequential driver methods ut0311.BroadcastTo, SendUDP, SendTCP against assumed contracts of package net on a ghost socket state: exactly one socket per call, closed on every return path; every blocking write/read happens under a deadline and the dial carries one; the process-wide lock is taken iff the bind port is fixed and released on every path; the receive loop exits only with an accepted datagram or a read error (never gives up early by itself). The wall-clock bound, goroutine termination and ut0311.Broadcast / Listen are NOT decided.",
    BASE_NOTE + "; net and sync.Mutex calls are assumed events on a ghost typestate; codec.Dump trusted"),
  "C10": ("other", "DESIGN.md section 4 C10",
-   "Partially decided (level 'other'): deductive proof per datagram - the receive handler turns every byte string into exactly one of (a) one freshly decoded event sent on the pipe, only for a 64-byte datagram with protocol id 0x17/0x19, function code 0x20, non-zero serial and in-domain fields, every event field being the protocol decoding of the datagram, or (b) exactly one OnError callback; listen() calls OnConnected exactly once after the driver started listening and returns nil. Exactly-once / in-order delivery across the goroutines, shutdown and the dispatch goroutine's mapping are NOT decided.",
-   BASE_NOTE + "; Listener callbacks and channel sends are ghost events; driver.Listen assumed"),
+   "Partially decided (level 'other'): deductive proof per datagram and per event - the receive handler turns every byte string into exactly one of (a) one freshly decoded event sent on the pipe, only for a 64-byte datagram with protocol id 0x17/0x19, function code 0x20, non-zero serial and in-domain fields, every event field being the protocol decoding of the datagram, or (b) exactly one OnError callback; the dispatch goroutine calls OnEvent exactly once per received event with a status whose every field is the mapping of that event (event present iff index != 0, system date and time combined with their civil fields, door maps allocated per event) and never OnError/OnConnected; the receive loop of ut0311.Listen uses a buffer that cannot truncate an over-length datagram into a message; listen() calls OnConnected exactly once after the driver started listening and returns nil. Exactly-once / in-order delivery across the goroutines and shutdown ordering are NOT decided.",
+   BASE_NOTE + "; Listener callbacks, channel sends and receives are ghost events; driver.Listen assumed"),
  "C11": ("other", "DESIGN.md section 4 C11",
-   "Partially decided (level 'other'): GetDevices verified with broadcast() and the codec executed in place (loop invariants in both loops): exactly one discovery request with the protocol bytes goes to driver.Broadcast at the configured broadcast address (255.255.255.255:60000 by default); malformed datagrams never make the call fail (it fails only when the driver fails); at most one entry per datagram; every entry's address is completed with the broadcast port (60000 by default) and carries the name of the matching configured controller; no panic (type assertion included). That each entry is the decoding of its own reply, in arrival order with duplicates, is NOT decided.",
-   BASE_NOTE + "; driver.Broadcast assumed (collector goroutine outside the subset)"),
+   "Partially decided (level 'other'): GetDevices verified with broadcast() and the codec executed in place (loop invariants in both loops): exactly one discovery request with the protocol bytes goes to driver.Broadcast at the configured broadcast address (255.255.255.255:60000 by default); malformed datagrams never make the call fail (it fails only when the driver fails); at most one entry per datagram; every entry's address is completed with the broadcast port (60000 by default) and carries the name of the matching configured controller; no panic (type assertion included); the reply collector of ut0311.Broadcast keeps every datagram in a buffer of its own (pairwise distinct). That each entry is the decoding of its own reply, in arrival order with duplicates, is NOT decided.",
+   BASE_NOTE + "; driver.Broadcast assumed at the API level (the collector goroutine body is verified on its own, its interleaving with the caller is not)"),
  "C12": ("proof", "DESIGN.md section 4 C12",
    "Unbounded deductive proof: bcd.Encode and bcd.Decode are verified against full functional contracts with loop invariants (all strings over the full byte alphabet incl. multi-byte UTF-8, all byte slices), and the two round-trip statements are lemma functions verified modularly against those contracts.",
    BASE_NOTE + "; UTF-8 range step, strings.Builder ghost model, fmt.Errorf != nil"),
